@@ -56,9 +56,18 @@ def outOk (pop : POp) (e out : POut) : Bool :=
      | .observe => observationOk e.ids out.pick
      | _ => out.pick.isEmpty)
 
+/-- the same over several lockout windows (`liveRegime`, Spec/C17): no lock had run out when an operation of `pre` was
+    processed, and every id the operation asks about was never blocked or changed last at most one window ago -/
+def liveReadOk (cfg : Cfg) (pre : List (Nat × Op)) (st : Stage) (now : Nat) (pop : POp) (out : POut) : Bool :=
+  match liveRegime cfg pre now (readKeys st pop) with
+  | none => true
+  | some tg =>
+    !(readKeys st pop).all (probeLive cfg.window tg now) || outOk pop (expOut (ghost cfg (pre.map (·.2))) st pop) out
+
 /-- one operation, executed at `now` after the coordinator-level history `pre` with `st` staged -/
 def readOk (cfg : Cfg) (pre : List (Nat × Op)) (st : Stage) (now : Nat) (pop : POp) (out : POut) : Bool :=
-  !regime cfg pre now (readKeys st pop) || outOk pop (expOut (ghost cfg (pre.map (·.2))) st pop) out
+  (!regime cfg pre now (readKeys st pop) || outOk pop (expOut (ghost cfg (pre.map (·.2))) st pop) out) &&
+    liveReadOk cfg pre st now pop out
 
 /-- all operations of one execution against their answers -/
 def readsOk (cfg : Cfg) : List (Nat × POp) → List (Nat × Op) → Stage → List POut → Bool
